@@ -3,6 +3,9 @@ use crate::idmap::LabelId;
 use crate::label_interner::LabelSnapshot;
 use crate::snapshot::{L0Run, Snapshot};
 use std::sync::Arc;
+#[cfg(nervusdb_verif)]
+use nervusdb_api::verif::sync::atomic::{AtomicU64, Ordering};
+#[cfg(not(nervusdb_verif))]
 use std::sync::atomic::{AtomicU64, Ordering};
 
 pub(crate) fn load_properties_and_stats_roots(
